@@ -35,7 +35,9 @@ RULE = ("sequential: seeded histories (0-45 ops) of Post / Register (local or re
         "event read, get or Empty, event set, _shutdown set) logged in one total order by wrappers living in "
         "the driver process only; 2 in 5 of these force an interleaving: thread 0 held between the load and the "
         "store of the counter while thread 1 posts, or a post + clean_shutdown placed right after an Empty get "
-        "of the loop; non-trivial = at least 3 messages handled or a deferred message replayed; distinct = "
+        "of the loop; registration race (1 case in 110, known finding): the late destination registers from "
+        "another thread while the first post to it is between its unknown-destination test and the deferral, or "
+        "the sender's next post runs between the table write and the replay; non-trivial = at least 3 messages handled or a deferred message replayed; distinct = "
         "distinct case JSON")
 MODELLED = ("Messaging.post_msg/next_msg/shutdown/_on_computation_registration, the discovery table and "
             "one-shot callbacks, the agent loop's dispatch and drain are modelled sequentially "
@@ -47,8 +49,11 @@ MODELLED = ("Messaging.post_msg/next_msg/shutdown/_on_computation_registration, 
             "FIFO per sender and type (with the post lock) and shutdown-drains (with the repaired loop) are "
             "theorems for every number of threads, program and interleaving; both are refuted by a witness for "
             "the code before the repairs. The logged real runs are replayed step by step through that model "
-            "(counters drawn, queue tuples, handler trace, dropped posts must coincide). Not in the micro-step "
-            "model: deferred posts / registration racing with posts, remote destinations, perf_counter ties "
+            "(counters drawn, queue tuples, handler trace, dropped posts must coincide). Registration racing with "
+            "deferring posts: a separate small micro-step model (look up / subscribe / append | put against table "
+            "write / snapshot / replay / clear): conservation is a theorem, stranding and overtaking are refuting "
+            "witnesses, the three forced real interleavings must end like the model. Not in the micro-step "
+            "models: remote destinations, un-registration racing with posts, perf_counter ties "
             "leading to a comparison of the messages themselves (flagged, never seen).")
 META = dict(
     level_text=("Proof (Coq) over all sequential histories of posts, registrations, un-registrations, pops, "
@@ -66,8 +71,9 @@ META = dict(
                 "messages of one thread and type are handled in posting order; with the repaired loop everything "
                 "put before clean_shutdown is handled before the agent thread stops. The same statements are "
                 "refuted by witness interleavings for the code before the two repairs (both reproduced on the "
-                "real code by a forced schedule). Registration racing with a deferring post is not covered by a "
-                "theorem. The models are tied to communication.py / agents.py / discovery.py by a "
+                "real code by a forced schedule). A registration racing with a deferring post strands or reorders "
+                "messages in the model and in the real code (recorded finding; only conservation is proved "
+                "there). The models are tied to communication.py / agents.py / discovery.py by a "
                 "differential run on every check (sequential histories op by op; real threads by replaying the "
                 "logged micro-steps through the interleaving model)."),
     level_note=("Trusted: Coq kernel/vm_compute, the hand-written models M_Messaging.v / M_MessagingMT.v (in "
